@@ -135,7 +135,7 @@ RULES = {
            "(incl. silent / stalling ones while the node's clock advances) must restore exactly those, write only verifying beacons, fail when nobody can serve. Non-trivial: peer list mixing hostile and honest-ahead peers, or >= 1 corrupted round; distinct by full case descriptor.",
     "C05": "fault scripts over networks of real beacon handlers (scheme in 5, n in 3..6, t in [n/2+1,n], 3 back-ends, period 2..6 s, catch-up 1..period-1 s): healthy prefix of 0-3 rounds, 1-5 fault periods each a partition "
            "(possibly leaving no side with t nodes), node stops, per-link loss or idle, then a healed phase with >= t nodes up (stopped nodes restarted with their old or an empty store, some staying down). "
-           "Oracle (bounded liveness in fake time, 1 s steps): all up nodes reach head == clock round within g*c*p/(p-c) + 4p (g = rounds missing at heal), the chain has no hole / fork (C02 scan), the next 3 periods each add exactly one round "
+           "Oracle (bounded liveness in fake time, 1 s steps): all up nodes reach head == clock round within g*c*p/(p-c) + 6p (+4p when nodes were restarted, +12p when one peer's sync service goes silent; g = rounds missing at heal), the chain has no hole / fork (C02 scan), the next 3 periods each add exactly one round "
            "on every up node, every restarted node emits a partial again. A budget miss is re-run once; only a repeat is a violation (else counted inconclusive). Non-trivial: outage of >= 2 rounds or a restart+rejoin; distinct by full script.",
     "C03": "networks of real beacon handlers with sync disabled and every link queued (scheme in 5, n in 2..6, t in [n/2+1,n], 0..n-1 members down = corrupted, 2-5 rounds); per round and observer the harness delivers the "
            "partials of a drawn subset of honest members (so that own + delivered is t-2, t-1 or t), valid partials made on behalf of corrupted members, and junk (wrong share, other round, other/junk previous signature, "
